@@ -22,6 +22,31 @@ for _i in range(1, 21):
 
 ALL = [f"C{i:02d}" for i in range(1, 21)]
 
+# what the later seeding rounds added on top of the module's LEVEL_TEXT (DESIGN.md 11.5a)
+PROBE = "a two-thread schedule probe (the call suspended at source lines inside the library while another thread runs a sibling call; both must return what they return alone)"
+ADDED = {
+    "C01": f"Also: {PROBE} on loads; bare os.PathLike audio directories; document names with several dots; look-alike strings and dates before 1970.",
+    "C02": f"Also: {PROBE} on saves into one folder; a save after a rejected save and after a save that fails late; tags of full terms sharing a name or a label.",
+    "C03": "Also: seven layouts of the same JSON text (compact, indented, tabs + CRLF, padded, members reordered).",
+    "C04": "Also: a `mapping` path (MappingProxyType, ChainMap, UserDict); AOEF projects whose tasks member is missing or null; the prediction side's own copy of the clip (same uuid, other content).",
+    "C05": f"Also: {PROBE}; sub-check tiny_coordinates (sub-normal times and frequencies).",
+    "C06": f"Also: {PROBE}; sub-check tiny_extents (joint extents of n sub-normal steps: IoU exactly j/n); zero-extent boxes and intervals.",
+    "C07": f"Also: {PROBE}; a tolerance-free maximality oracle (no unpaired source and unpaired target with positive affinity); affinities of 1e-17 and less; custom Sequence / deque inputs.",
+    "C08": f"Also: {PROBE} with two vocabularies; sub-check enclosed_events (an event inside the area enclosed by a traced contour stays unpaired); two terms under one label; custom Sequence / deque inputs.",
+    "C09": f"Also: {PROBE} with two vocabularies; custom Sequence / deque inputs; two terms under one label.",
+    "C10": "Also: import with the recording read from notated_path and recording_kwargs; look-alike label mappings; tags of full terms.",
+    "C11": f"Also: {PROBE}; -0.0 buffers; zero-length lines; polygons with 2-3 holes of unequal size.",
+    "C12": "Also: clips that start before time 0.",
+    "C13": f"Also: {PROBE}; comparison functions that group other events themselves; hubs with 255..1024 partners, a complete graph on 257 events.",
+    "C14": f"Also: {PROBE}; two lazy segmentations consumed in lock step; time-expanded recordings; an ambient decimal context of precision 3.",
+    "C15": f"Also: {PROBE} on two audio directories holding a file of the same name; channel-first sources for resample; the values stored for channel c are the spectrogram of channel c alone.",
+    "C16": "Also: sub-check tiny_steps (steps from 1e-8 down to sub-normal).",
+    "C17": f"Also: {PROBE}; the axis renamed to an xarray keyword; axes without coordinates.",
+    "C18": f"Also: {PROBE} on saves / loads under two directories; loading under a relative directory named like a stored prefix; document names with several dots.",
+    "C19": f"Also: {PROBE} with two vocabularies; the hash law across entry points (JSON / dict round trip, every default passed explicitly).",
+    "C20": f"Also: {PROBE}; templates whose axes start below zero.",
+}
+
 
 def fix_commits():
     try:
@@ -45,7 +70,7 @@ def main():
                 "evidence_file": f"/verif/evidence/{pid}.json",
                 "replay_cmd_template": f"./vcheck {pid} --replay {{path}}",
                 "engine": "vf-runner",
-                "level_claimed": {"category": "exploration", "text": text, "design_ref": ref},
+                "level_claimed": {"category": "exploration", "text": text + (" " + ADDED[pid] if pid in ADDED else ""), "design_ref": ref + " and section 11.5a"},
                 "level_note": note,
                 "technique": tech,
             }
